@@ -4,7 +4,7 @@
 # /repo + /verif under /tmp (removed afterwards).  Writes /verif/seeded/REGRESSION.txt: one line per change with rc (1 = detected).
 # /repo itself is never touched.
 lanes=${1:-4}; pat=${2:-.}
-work=/tmp/rgx
+work=${RGX_WORK:-/tmp/rgx}   # a second, concurrent run needs its own RGX_WORK (and a pattern: it writes REGRESSION-partial.txt)
 rm -rf $work; mkdir -p $work
 items=()
 for d in /verif/seeded/C*; do items+=("$(basename $d) ${d}/patch.diff $(basename $d | cut -d- -f1)"); done
